@@ -154,3 +154,65 @@ def kangReceiver [Add α] [Mul α] [Zero α] (sc : ExScene α) (K : Nat) (binR :
   kangReceiverOf sc.P K (fun k j t => orderH sc k j 0 t) binR factor
 
 end Sparrow
+
+/-! ### The array versions in `sparrowpy/form_factor/kang.py`
+
+  `patch2patch_ff_kang`, `_source2patch_energy_kang`, `_patch2receiver_energy_kang` are the same
+  formulas as the methods of `PatchesKang`, vectorised over patch arrays and with the in-plane
+  sizes of the SOURCE patch taken from `patches_size` instead of one `max_size`. -/
+namespace Sparrow
+variable {α : Type}
+
+/-- in-plane sizes `(dd_l, dd_m)` of the source patch, by the axis of its normal -/
+def kangSizesOrth (aS : Nat) (size : Vec3 α) : α × α :=
+  if aS = 0 then (size.z, size.y) else if aS = 1 then (size.z, size.x) else (size.y, size.x)
+
+/-- orthogonal branch of `patch2patch_ff_kang` for one pair (`size` of the source patch) -/
+def kangFFArrOrth [Add α] [Sub α] [Mul α] [Div α] [Neg α] [One α] [Cmp α] [Transc α]
+    (sc rc ns nr size : Vec3 α) (thr5 thr12 : α) : α :=
+  let two : α := 1 + 1
+  let half : α := 1 / two
+  let aS := normalAxis ns thr5
+  let aR := normalAxis nr thr5
+  let (ddl, ddm) := kangSizesOrth aS size
+  -- idx_source = {2,1} / {2,0} / {0,1}
+  let inSrc : Nat → Bool := fun a => a != aS
+  let idxL := if aR = 0 then (if inSrc 1 then 1 else 2) else if aR = 1 then (if inSrc 0 then 0 else 2)
+              else (if inSrc 0 then 0 else 1)
+  let idxS := aR
+  let idxR := if aR = 0 then (if inSrc 1 then 2 else 1) else if aR = 1 then (if inSrc 0 then 2 else 0)
+              else (if inSrc 0 then 1 else 0)
+  let dm := Cmp.abs (sc.get idxS - rc.get idxS)
+  let dl := sc.get idxL
+  let dl' := rc.get idxL
+  let dn' := Cmp.abs (sc.get idxR - rc.get idxR)
+  let e := dl - dl'
+  let A := (dm - half * ddm) / Transc.sqrt (e * e + (dm - half * ddm) * (dm - half * ddm) + dn' * dn')
+  let B := (dm + half * ddm) / Transc.sqrt (e * e + (dm + half * ddm) * (dm + half * ddm) + dn' * dn')
+  let one := Transc.atan (Cmp.abs ((dl - half * ddl - dl') / dn'))
+  let twoA := Transc.atan (Cmp.abs ((dl + half * ddl - dl') / dn'))
+  let k : α := if Cmp.lt (Cmp.abs e) thr12 then -1 else 1
+  let theta := Cmp.abs (one - k * twoA)
+  (1 / (two * Transc.pi)) * Cmp.abs (A * A - B * B) * theta
+
+/-- parallel branch of `patch2patch_ff_kang`: the separating axis is the one of the receiver's
+    normal; `dd_l · dd_n` are the in-plane sizes of the source patch -/
+def kangFFArrPar [Add α] [Sub α] [Mul α] [Div α] [Cmp α] [Transc α]
+    (sc rc nr size : Vec3 α) (thr5 : α) : α :=
+  let aR := normalAxis nr thr5
+  let (l, m, n) : Nat × Nat × Nat := if aR = 0 then (1, 0, 2) else if aR = 1 then (0, 1, 2) else (1, 2, 0)
+  let (ddl, ddn) : α × α := if aR = 0 then (size.y, size.z) else if aR = 1 then (size.x, size.z) else (size.y, size.x)
+  let el := rc.get l - sc.get l
+  let em := rc.get m - sc.get m
+  let en := rc.get n - sc.get n
+  let d := Transc.sqrt (el * el + en * en + em * em)
+  (ddl * ddn * (em * em)) / (Transc.pi * (d * d * d * d))
+
+/-- one entry of `patch2patch_ff_kang` -/
+def kangFFArr [Add α] [Sub α] [Mul α] [Div α] [Neg α] [One α] [Zero α] [Cmp α] [Transc α]
+    (sc rc ns nr size : Vec3 α) (thr5 thr12 : α) : α :=
+  let dot := nr.x * ns.x + nr.y * ns.y + nr.z * ns.z
+  if !Cmp.lt dot 0 && !Cmp.lt 0 dot then kangFFArrOrth sc rc ns nr size thr5 thr12
+  else kangFFArrPar sc rc nr size thr5
+
+end Sparrow
